@@ -38,7 +38,9 @@ from pandera.dtypes import (
     is_complex,
     is_datetime,
     is_float,
+    is_int,
     is_timedelta,
+    is_uint,
 )
 from pandera.engines import numpy_engine, pandas_engine
 from pandera.errors import BaseStrategyOnlyError, SchemaDefinitionError
@@ -658,6 +660,15 @@ def isin_strategy(
     :returns: ``hypothesis`` strategy
     """
     if strategy is None:
+        if is_int(pandera_dtype) or is_uint(pandera_dtype):
+            # converting a non-integral number to an integer type truncates
+            # it to a value that need not be in the set: it can never occur
+            allowed_values = [
+                x
+                for x in allowed_values
+                if not isinstance(x, (float, np.floating))
+                or float(x).is_integer()
+            ]
         return pandas_dtype_strategy(
             pandera_dtype, st.sampled_from(allowed_values)
         )
